@@ -190,4 +190,13 @@ def encodeVersion (H : Bytes → Bytes) (v : Nat) : OTree Bytes Bytes → KVPair
   | some t =>
     let ((u, nonce), recs, _) := encodeNodes H true v t []
     if u = v then recs else (physKey v 1, physKey u nonce) :: recs
+
+/-- the same image with the reference root in the short form `s<version>` (the record written before lazy
+    pruning, still accepted by the format: it names the root `(version, 1)`) -/
+def encodeVersionShort (H : Bytes → Bytes) (v : Nat) : OTree Bytes Bytes → KVPairs
+  | none => [(physKey v 1, [])]
+  | some t =>
+    let ((u, nonce), recs, _) := encodeNodes H true v t []
+    if u = v then recs
+    else (physKey v 1, if nonce = 1 then (physKey u nonce).take 9 else physKey u nonce) :: recs
 end Iavl
